@@ -74,7 +74,7 @@ _ENV = 'Assumed contracts (trusted): std HashMap as a map view; common/deque.rs 
 CLAIMS = {
     'C01': dict(technique='Verus contracts on the extracted unsync insert/get/contains_key/invalidate* functions + relational lemmas',
                 text='every lookup answer is specified as a function of the map view (value of the resident binding, absent after invalidate*) and proved for all keys, hashers, weights, capacities and clock readings',
-                note=_UNS + _ENV + ' invalidate_entries_if and iteration are outside reach of Verus (iterator adapters): bounded runtime stand-in only.'),
+                note=_UNS + _ENV + ' invalidate_entries_if: the removal phase (loop, unlinking, counters) is proved on the real text; its selection expression (an iterator-adapter chain Verus rejects) is replaced by an ASSUMED contract through a declared rewrite tied to the token hash of that expression, and is exercised by the bounded runtime stand-in only. Iteration is outside reach of Verus: bounded runtime stand-in only.'),
     'C03': dict(technique='Verus contracts: free-space branch of handle_insert, frame and precision clauses of the housekeeping functions (expiry scans purge only expired entries), weight invariant',
                 text='an insert that fits is proved to add the entry and remove nobody; housekeeping is proved to remove nothing when within capacity and without expiry, and with expiry to purge only entries whose deadline has passed at the reading of the call; counters proved exact so room is never under-estimated',
                 note=_UNS + _ENV + ' That the expiry scans purge only entries whose deadline has passed at the reading of the call (and go on while the front entry is expired) is proved on the real text of remove_expired_ao / remove_expired_wo / evict_expired; it rests on two named axioms (axiom_stamp_ao / axiom_stamp_wo: a list node read through peek_front carries the stamp of the entry whose slot points to it - in src/unsync.rs the stamps physically live in the nodes, read and written through raw pointers), listed with the assumptions.'),
@@ -87,12 +87,12 @@ CLAIMS = {
     'C06': dict(technique='Verus contracts: is_expired_entry_ao, record_hit, frame clauses of contains_key',
                 text='same as C05 for the idle timer; contains_key is proved to leave every timestamp untouched, only a get hit writes last_accessed',
                 note=_UNS + _ENV + ' iteration takes &self and cannot write (type system).'),
-    'C07': dict(technique='Verus contracts on unsync invalidate / invalidate_all',
-                text='invalidate(k) is proved to remove exactly the binding of k from what housekeeping left, invalidate_all to empty map and lists; only insert adds keys',
-                note=_UNS + _ENV + ' invalidate_entries_if is outside reach of Verus (iterator adapter chain): bounded runtime stand-in (rt_unsync) only, never counted as proved.'),
+    'C07': dict(technique='Verus contracts on unsync invalidate / invalidate_all / invalidate_entries_if (removal phase)',
+                text='invalidate(k) is proved to remove exactly the binding of k from what housekeeping left, invalidate_all to empty map and lists, invalidate_entries_if to remove exactly the selected keys and leave every other entry, its stamps and the recency order untouched; only insert adds keys',
+                note=_UNS + _ENV + ' invalidate_entries_if: the selection expression (iterator-adapter chain with pattern closures, rejected by Verus) is NOT verified: a declared rewrite replaces exactly that expression (pinned by its token hash) by the assumed contract sel_keys = "the keys of the entries the (pure) predicate holds for"; everything after it is proved on the real text (`for_each` closure written as a `for` loop by a declared rewrite). The selection itself is exercised by the bounded runtime stand-in (rt_unsync) only.'),
     'C08': dict(technique='Verus built-in obligations (overflow, index, unwrap/expect/panic reachability) on every function under contract; Kani pointer checks on the list layer',
                 text='no arithmetic overflow, out-of-range index or reachable internal panic in any function under contract for all inputs satisfying the invariant',
-                note=_UNS + _ENV + ' Raw-pointer list sequences are bounded Kani stand-ins, not proofs; sync maintenance, Drop and invalidate_entries_if are not covered.'),
+                note=_UNS + _ENV + ' Raw-pointer list sequences are bounded Kani stand-ins, not proofs; sync()/apply_writes sequences, Drop and the selection expression of invalidate_entries_if are not covered.'),
     'C10': dict(technique='Verus representation invariant: entry_count == |list|, weighted_size == sum of resident weights, as postcondition of every operation',
                 text='both counters are proved exact after every public operation of the single-threaded cache, for every history',
                 note=_UNS + _ENV),
